@@ -197,6 +197,10 @@ def evaluate(mod, case):
     and is reported as such (exit 2), never as a violation"""
     try:
         annotate(case)
+        if isinstance(case, dict) and case.get('timing'):
+            import io, contextlib
+            with contextlib.redirect_stderr(io.StringIO()):        # the program's timing lines
+                return mod.check(case), None
         return mod.check(case), None
     except Exception as e:
         tb = traceback.extract_tb(e.__traceback__)
